@@ -160,3 +160,78 @@ func errorResponses(x *explore.X) {
 }
 
 var _ = explore.NewSuite
+
+// requestLogLines (Engine S): TWO proxy instances in one process - as the binary has a proxy and an API server,
+// each with its own log-http mode. Instance A dumps headers (mode headers / body, or errors with a failing
+// exchange) for an exchange that carries injected site credentials; afterwards instance B, whose mode never
+// shows headers, serves a successful exchange. Whatever B's request log prints for it must not contain the
+// password: what one logger has seen must not come out of another.
+func requestLogLines(x *explore.X) {
+	secret := secrets[x.ChooseFree("secret", len(secrets))]
+	modeA := []string{"errors", "headers", "body"}[x.ChooseFree("log-http-of-the-other-instance", 3)]
+	modeB := []string{"short-url", "url", "none", "errors"}[x.ChooseFree("log-http", 4)]
+	nA := 1 + x.ChooseFree("exchanges-on-the-other-instance-1", 2)
+	if strings.ContainsAny(secret, "@ ") {
+		x.Outcome("inadmissible") // cannot be written as a --credentials entry
+		return
+	}
+	netw := simnet.New()
+	creds := []string{"siteuser:" + secret + "@site.test:80"}
+	wA, err := world.Start(world.Options{Net: netw, Addr: "proxy-a.test:3128", LogHTTP: modeA, Credentials: creds, NoProm: true})
+	if err != nil {
+		x.Failf("harness/start", "%v", err)
+		return
+	}
+	wB, err := world.Start(world.Options{Net: netw, Addr: "proxy-b.test:3128", LogHTTP: modeB, Credentials: creds, NoProm: true})
+	if err != nil {
+		x.Failf("harness/start", "%v", err)
+		return
+	}
+	site, _ := wA.Hop("site.test:80", nil)
+	token := base64.StdEncoding.EncodeToString([]byte("siteuser:" + secret))
+	one := func(w *world.World, path, reply string) bool {
+		cl, _ := w.Client()
+		cl.Send([]byte("GET http://site.test" + path + " HTTP/1.1\r\nHost: site.test\r\n\r\n"))
+		msgs, conns, _ := site.Next()
+		if len(msgs) != 1 || !strings.Contains(string(msgs[0].Raw), token) {
+			x.Failf("harness/secret-not-used", "the site did not receive the injected credentials: %d requests; client got %q", len(msgs), world.Clip(cl.Recv()))
+			return false
+		}
+		site.Conns[conns[0]].Send([]byte(reply))
+		world.Settle(time.Second)
+		cl.Close()
+		world.Settle(time.Second)
+		return true
+	}
+	for i := 0; i < nA; i++ {
+		if !one(wA, "/on-a", "HTTP/1.1 503 Service Unavailable\r\nContent-Length: 0\r\n\r\n") {
+			return
+		}
+	}
+	before := len(wB.Log.Lines())
+	if !one(wB, "/on-b?token=visible", "HTTP/1.1 200 OK\r\nContent-Length: 2\r\n\r\nok") {
+		return
+	}
+	x.Check()
+	needles := []string{secret, url.QueryEscape(secret), url.PathEscape(secret), base64.StdEncoding.EncodeToString([]byte(secret)), token}
+	what := fmt.Sprintf("instance A log-http=%s served %d exchange(s) answered 503, then instance B log-http=%s served a successful exchange", modeA, nA, modeB)
+	dump := 0
+	for _, l := range wB.Log.Lines()[before:] {
+		if strings.Contains(l, "HTTP dump") {
+			dump++
+		}
+		for _, n := range needles {
+			if n != "" && strings.Contains(l, n) {
+				x.Failf("secret-disclosed/request-log/credentials", "%s: B's log line contains the secret (%q): %s", what, n, world.Clip([]byte(l)))
+				return
+			}
+		}
+	}
+	x.Outcome(fmt.Sprintf("%s/%s/dump=%d", modeA, modeB, dump))
+	wA.Stop()
+	wB.Stop()
+	site.Close()
+	if l := world.Leaks(); l != "" {
+		x.Failf("goroutine-leak", "%s", l)
+	}
+}
